@@ -5,7 +5,7 @@ import random
 
 from .. import core, tlc
 
-POS = {"from", "target", "target_column", "collist", "alias_def", "next_stmt_from", "next_stmt_colref", "qualifier"}
+POS = {"from", "target", "target_column", "collist", "alias_def", "next_stmt_from", "next_stmt_colref", "qualifier", "next_stmt_colref_after_rename"}
 INVS = ["WrittenIsFoundAgain", "SameSpellingSameEntity", "UnquotedCaseInsensitive", "QuotedKeepsCase", "PrintedAsNormalised", "EmitCase"]
 
 
@@ -40,12 +40,16 @@ def run(chk):
         chk.self_test("spec finds D_NORM_TWICE at " + pos, bool(r.violated), ",".join(r.violated))
     cases = []
     for quotes in (("none", "dq"), ("none", "bt"), ("none", "br")):
-        g = chk.tlc("Names", cfg(chk, "gen" + quotes[1], quotes, 2 if quick else 3, emit=True), "generate: spellings with quote style " + quotes[1],
+        g = chk.tlc("Names", cfg(chk, "gen" + quotes[1], quotes, 3, emit=True), "generate: spellings with quote style " + quotes[1],
                     workers=1, coverage=False, timeout=3000)
         cs = g.cases("CASE")
         if quick:
-            rnd.shuffle(cs)
-            cs = cs[:800]
+            # stratified: every column / alias case (one-part names, few), a seeded sample of the table-name cases (1-3 parts, many)
+            small = [c for c in cs if len(c["wname"]) == 1 and c["wpos"] not in ("target", "from")]
+            big = [c for c in cs if not (len(c["wname"]) == 1 and c["wpos"] not in ("target", "from"))]
+            rnd.shuffle(big)
+            rnd.shuffle(small)
+            cs = small[:500] + big[:500]
         cases += cs
     pool = mp.Pool(16)
     try:
@@ -58,7 +62,7 @@ def run(chk):
         if "skip" in o:
             continue
         traces.append({"wname": c["wname"], "wpos": c["wpos"], "rname": c["rname"], "rpos": c["rpos"], "wprinted": o["wprinted"],
-                       "rprinted": o["rprinted"], "connected": o["connected"], "exc": o["exc"]})
+                       "rprinted": o["rprinted"], "connected": o["connected"], "exc": o["exc"], "hash_consistent": o.get("hash_consistent", True)})
         keep.append((c, o))
     v = core.validate_traces(chk, "Trace_Names", os.path.join(tlc.SPEC, "Trace_Names.cfg"), traces, "names")
     verd = {}
@@ -80,6 +84,6 @@ def run(chk):
     chk.self_test("a flipped 'found again' observation is rejected", bad[1][1] != "ok", bad[1][1])
     chk.cov["rule"] = ("cases = (written spelling, position, read spelling, position) printed by TLC from Names.tla: case pattern {lower, UPPER, Mixed} x "
                        "{unquoted, double quotes (ansi), backticks (mysql), square brackets (tsql)} x 1-%d name parts over the position pairs target->later "
-                       "FROM, select alias->later column reference, INSERT column list->later column reference, alias definition->qualifier, FROM->FROM; "
-                       "non-trivial = some part is quoted." % (2 if quick else 3))
+                       "FROM, select alias->later column reference (also with the table renamed in between), INSERT column list->later column reference, alias definition->qualifier, FROM->FROM; tables found by the analyser are also compared (==, hash, set membership) with Table(spelling) built directly; "
+                       "non-trivial = some part is quoted." % 3)
     chk.assumptions += ["a name uses one quote style (the dialect that admits it analyses the statement)"]
